@@ -27,7 +27,7 @@ CHECKS = {
                 text="Every dynamic VHD of the bounded space (block size x size form x max_table_entries x table/header "
                      "order x 512/511-byte footer x every allocation and injective placement of a 3-5 block window) and a "
                      "family of fixed VHDs are read with every boundary request through seek/read and disk.read_sectors "
-                     "and compared with a reference disk model; complete enumeration per buffer size.",
+                     "and compared with a reference disk model; complete enumeration per buffer size; single requests of 17-40 MiB.",
                 note="trusted: VHD specification transcription in mc/builders/vhd.py (validated against both repository "
                      "fixtures incl. checksums), CPython, AlignedStream; block sizes >= 4 KiB only"),
     "C03": dict(level=MC, ref="DESIGN.md section 4 C03",
@@ -72,7 +72,8 @@ CHECKS = {
                      "VDI, HDS, Parallels StorageStream) every operation sequence up to depth 3 over a ~35-operation alphabet "
                      "on one instance, every depth-2 sequence addressed to two instances over different images, and the suffix "
                      "trees after ascending/descending/strided sweeps that fill and evict the 128-/4096-entry caches, are "
-                     "executed on the real objects and compared step by step with a history-free stream model, per buffer size.",
+                     "executed on the real objects and compared step by step with a history-free stream model, per buffer size; depth-2 "
+                     "histories once more with every logger of the library at DEBUG.",
                 note="trusted: StreamModel in mc/models.py, builders of C01-C06, AlignedStream as a given dependency; histories "
                      "longer than the depth bound are covered only by the sweeps; thread-safety not in scope",
                 technique="exhaustive history-tree exploration of the real stream objects against a history-free model"),
